@@ -498,10 +498,11 @@ def _name_suggests(name):
         return None, False
     base = name.replace(os.sep, '/').rsplit('/', 1)[-1]
     stem, dot, ext = base.rpartition('.')
-    if not dot or ext.lower() not in ('tex', 'opb'):
+    if not dot or ext not in ('tex', 'opb'):
+        # 'ends with .tex or .opb' is said of the name as it is written: F.TEX, run.OPB, notes.Tex end with neither
         return None, False
-    fmt = 'latex' if ext.lower() == 'tex' else 'opb'
-    return fmt, (ext == ext.lower() and stem.strip('.') != '')
+    fmt = 'latex' if ext == 'tex' else 'opb'
+    return fmt, stem.strip('.') != ''
 
 
 def _dest_expected(request, name):
@@ -2733,7 +2734,7 @@ SUBCHECKS = [
              quick=3000, thorough=75000,
              rule="hand-built CNFs (0..12 variables from singleton/block/anonymous groups with unusual labels, 0..30 clauses of width 0..4, empty clauses, unused variables), 8 library families and 14 cnfgen command lines (incl. `dimacs <file with unusual name>`), chains flip/shuffle/one arity-2 substitution, 0..3 header entries with unusual keys/values, export_header x export_varnames, via to_dimacs/to_file(StringIO)/to_file(None)/to_file(filename)/to_dimacs_file/cnfgen -q|-v [--varnames] [-o]; plus a complete grid of 6 corner formulas x 11 corner texts x 3 positions x flags x 6 paths. Oracle: independent strict reader accepts, one problem line with the true counts, same clauses in order, comment lines start with 'c ', the tree's reader returns the same formula. Non-trivial: >=1 clause and (header on or >=1 unused variable). "
                   "HISTORY (1/3 of the generated cases, kind=history): ONE formula object (CNF(), CNF(description), CNF(clauses), CNF.from_file(...), one of 8 library families, cli(argv, mode='formula') for 11 command lines) is encoded, then changed 2..6 times by add_clause(check=True|False, literals over the current variables or up to 2 beyond, empty clause) / add_clauses_from / update_variable_number(n-2..n+40) / new_variable / new_block / new_combinations, _with_replacement, permutations, words, mapping, binary_mapping, graph_edges, bipartite_edges, digraph_edges / header[k]=v / add_parity / add_linear, with 0..2 encodings after every change and one at the end, each through to_dimacs() (40%), to_file(StringIO|None|the same file name again), to_dimacs_file, with any export flags, and for cli starts cli(argv, mode='string') asked again in between; plus enumerated: encode/change/encode for 3 starts x 26 changes x pairs of paths (all 36 in the thorough tier), encode/change/encode/change/encode for 26 x 26 ordered pairs of changes x 3 paths, 11 command lines x 1 change (new variable / raise of the variable number / clause). Oracle: the harness's own model of the object (n and clause list updated by the documented effect of each operation; group sizes from their combinatorial definition) - every encoding must pass the writer oracle above against the model as it is at that moment, so all paths agree with each other and read back equal; the object must hold the model. Non-trivial: >=2 encodings and >=1 change. "
-                  "DESTINATION (1/6 of the generated cases and an enumerated grid, kind=dest): EXPLICIT FORMAT REQUEST x NAME OF THE DESTINATION. Names: 31 fixed ones (f.cnf f.dimacs f.txt f.gml noext f.opb f.tex a.tex.cnf a.opb.cnf a.cnf.opb a.cnf.tex a.opb.tex a.tex.opb F.OPB F.TEX f.Opb f.teX F.CNF .opb .tex 'f.opb.' 'f.tex ' opb tex f.opbx f.latex d.opb/plain d.tex/h.cnf d.cnf/g.opb 'a b.opb' é.tex) and generated ones [d.opb/|d.tex/|d.cnf/] + stem (f a.b 'x y' é .h a.opb a.tex a.cnf '' . F opb) + one of 22 extensions (several dots, upper/mixed case, trailing dot/blank). Requests: none, 'dimacs', 'opb', 'latex' (keyword or positional). Writer paths: to_file(file name), to_file(handle opened by str name / by bytes name / os.fdopen with an int name), to_file(user object with write() and .name = the name | absolute path | bytes | 7 | None | [name] | no attribute), to_file(StringIO given a .name), to_dimacs_file(name | handle | user object), `cnfgen [-q] [--varnames] [-of|--output-format[=]|--latex <fmt>] -o|--output[=]|-o<glued> <name> <8 command lines>`, `cnfshuffle [-q] -p -v -c -i <harness-written DIMACS> -o <name>`, `kthlist2pebbling [-q] -i <harness-written dag of 1..6 vertices> -o <name> [xor 2|or 2|none]` (-o before or after -i), all in-process. Oracle: an explicit request decides the format whatever the name looks like - for 'dimacs' (and always for to_dimacs_file, cnfshuffle, kthlist2pebbling) the destination passes the full writer oracle above against the formula (for cnfshuffle: the formula of the harness-written source; for kthlist2pebbling without transformation also the harness's own pebbling clauses), for 'opb'/'latex' it opens with '* #variable= n #constraint= m' / holds a LaTeX document; WITHOUT a request the documented guess applies (docstring of CNF.to_file / guess_output_format: DIMACS unless the file name ends with '.tex' -> LaTeX or '.opb' -> OPB; that is what the unchanged tree does, on the last extension of a str name, case-sensitive): names whose last extension is exactly 'tex'/'opb' after a non-empty stem must give that format, all other names DIMACS, except the gray names (upper/mixed-case .TEX/.Opb, a bare '.opb'/'.tex', bytes names) where DIMACS or the suggested format is accepted; nothing goes to stdout. Non-trivial: >=1 clause and the name suggests a format other than the requested one, or a guess from the name.",
+                  "DESTINATION (1/6 of the generated cases and an enumerated grid, kind=dest): EXPLICIT FORMAT REQUEST x NAME OF THE DESTINATION. Names: 31 fixed ones (f.cnf f.dimacs f.txt f.gml noext f.opb f.tex a.tex.cnf a.opb.cnf a.cnf.opb a.cnf.tex a.opb.tex a.tex.opb F.OPB F.TEX f.Opb f.teX F.CNF .opb .tex 'f.opb.' 'f.tex ' opb tex f.opbx f.latex d.opb/plain d.tex/h.cnf d.cnf/g.opb 'a b.opb' é.tex) and generated ones [d.opb/|d.tex/|d.cnf/] + stem (f a.b 'x y' é .h a.opb a.tex a.cnf '' . F opb) + one of 22 extensions (several dots, upper/mixed case, trailing dot/blank). Requests: none, 'dimacs', 'opb', 'latex' (keyword or positional). Writer paths: to_file(file name), to_file(handle opened by str name / by bytes name / os.fdopen with an int name), to_file(user object with write() and .name = the name | absolute path | bytes | 7 | None | [name] | no attribute), to_file(StringIO given a .name), to_dimacs_file(name | handle | user object), `cnfgen [-q] [--varnames] [-of|--output-format[=]|--latex <fmt>] -o|--output[=]|-o<glued> <name> <8 command lines>`, `cnfshuffle [-q] -p -v -c -i <harness-written DIMACS> -o <name>`, `kthlist2pebbling [-q] -i <harness-written dag of 1..6 vertices> -o <name> [xor 2|or 2|none]` (-o before or after -i), all in-process. Oracle: an explicit request decides the format whatever the name looks like - for 'dimacs' (and always for to_dimacs_file, cnfshuffle, kthlist2pebbling) the destination passes the full writer oracle above against the formula (for cnfshuffle: the formula of the harness-written source; for kthlist2pebbling without transformation also the harness's own pebbling clauses), for 'opb'/'latex' it opens with '* #variable= n #constraint= m' / holds a LaTeX document; WITHOUT a request the documented guess applies (docstring of CNF.to_file / guess_output_format: DIMACS unless the file name ends with '.tex' -> LaTeX or '.opb' -> OPB; that is what the unchanged tree does, on the last extension of a str name, case-sensitive): names whose last extension is exactly 'tex'/'opb' after a non-empty stem must give that format, all other names DIMACS, upper/mixed-case extensions (.TEX, .Opb) end with neither and give DIMACS, except the gray names (a bare '.opb'/'.tex', bytes names) where DIMACS or the suggested format is accepted; nothing goes to stdout. Non-trivial: >=1 clause and the name suggests a format other than the requested one, or a guess from the name.",
              required_labels=['dest', 'dest-request-dimacs-against-name-opb', 'dest-request-dimacs-against-name-latex',
                               'dest-request-opb-against-name-latex', 'dest-request-latex-against-name-opb',
                               'dest-guess-opb', 'dest-guess-latex', 'dest-gray-name', 'dest-dotted-directory',
